@@ -22,6 +22,96 @@ KINDS = {
 }
 
 
+# ------------------------------------------------------------------ systematic schedules
+# Fixed small programs per kind.  Each is first run under the canonical schedule (always the first enabled
+# entity); then under every schedule that follows the canonical run up to some step, takes another enabled
+# entity there, and continues canonically ("one preemption anywhere").  Independent of VERIF_SEED.
+_OK = {"raises": False}
+CANON = {
+    "block": [
+        {"mode": "block", "workers": 2, "calls": [dict(_OK), dict(_OK)],
+         "ops": [["submit", 1], ["submit", 2], ["cancel", 2], ["result", 1], ["shutdown", True, False]]},
+        {"mode": "block", "workers": 1, "calls": [dict(_OK), dict(_OK)],
+         "ops": [["submit", 1], ["submit", 2], ["shutdown", False, True]]},
+        {"mode": "block", "workers": 2, "calls": [dict(_OK), dict(_OK), dict(_OK)],
+         "ops": [["submit", 1], ["submit", 2], ["submit", 3], ["shutdown", True, True], ["shutdown", True, False]]},
+    ],
+    "step": [
+        {"mode": "step", "max_cores": 2, "executor_kwargs": {},
+         "calls": [{"raises": False, "res": {"cores": 2}}, {"raises": False, "res": {}}, {"raises": False, "res": {}}],
+         "ops": [["submit", 1], ["submit", 2], ["submit", 3], ["cancel", 3], ["shutdown", True, False]]},
+        {"mode": "step", "max_workers": 1, "executor_kwargs": {},
+         "calls": [{"raises": False, "res": {}}, {"raises": False, "res": {}}],
+         "ops": [["submit", 1], ["submit", 2], ["result", 2], ["shutdown", False, False]]},
+    ],
+    "dep": [
+        {"mode": "dep-block", "max_workers": 1, "calls": [dict(_OK), {"raises": False, "deps": [1]}, {"raises": False, "deps": [1, 2]}],
+         "ops": [["submit", 1], ["submit", 2], ["submit", 3], ["result", 3], ["shutdown", True, False]]},
+        {"mode": "dep-step", "max_cores": 2, "calls": [{"raises": False, "res": {}}, {"raises": False, "deps": [1], "res": {}}],
+         "ops": [["submit", 1], ["submit", 2], ["cancel", 2], ["shutdown", True, False]]},
+        {"mode": "dep-block", "max_workers": 2, "calls": [dict(_OK), {"raises": False, "deps": [1, 1], "nest": True}],
+         "ops": [["submit", 1], ["submit", 2], ["shutdown", False, False]]},
+    ],
+    "cblock": [
+        {"mode": "block", "workers": 2, "cache": True, "calls": [dict(_OK), dict(_OK)],
+         "ops": [["submit", 1], ["submit", 2], ["cancel", 2], ["result", 1], ["shutdown", True, False]]},
+    ],
+    "cblockd": [
+        {"mode": "block", "workers": 2, "cache": True, "calls": [dict(_OK), {"raises": False, "same_as": 1}],
+         "ops": [["submit", 1], ["result", 1], ["submit", 2], ["result", 2], ["shutdown", True, False]]},
+    ],
+    "cstep": [
+        {"mode": "step", "max_cores": 2, "executor_kwargs": {}, "cache": True,
+         "calls": [{"raises": False, "res": {}}, {"raises": False, "res": {}}],
+         "ops": [["submit", 1], ["submit", 2], ["result", 1], ["shutdown", True, False]]},
+    ],
+    "fexec": [
+        {"mode": "file", "nocancel": True, "calls": [{"args": [1], "deps": []}, {"args": [2], "deps": [1]}],
+         "ops": [["submit", 1], ["submit", 2], ["result", 2], ["shutdown", True, False]]},
+        {"mode": "file", "nocancel": True, "calls": [{"args": [1], "deps": []}, {"args": [1], "deps": [], "same_as": 1}],
+         "ops": [["submit", 1], ["result", 1], ["submit", 2], ["result", 2], ["exit"]]},
+    ],
+}
+
+
+def systematic(kinds, per_kind=None, stride=1, offset=0):
+    """returns list of (kind, case) with explicit schedules: the canonical runs and their single deviations
+    (all of them for stride=1; every stride-th one, starting at offset, otherwise)"""
+    import copy
+    bases = []
+    for kind in kinds:
+        progs = CANON.get(kind, [])
+        for prog in (progs if per_kind is None else progs[:per_kind]):
+            lim = KINDS[kind][3]
+            c = copy.deepcopy(prog)
+            c["schedule"] = [0] * lim
+            c["step_limit"] = lim
+            c["systematic"] = "canonical"
+            bases.append((kind, c))
+    results = lockstep.run_cases([c for _, c in bases])
+    out = []
+    ndev = 0
+    for (kind, c), r in zip(bases, results):
+        out.append((kind, c))
+        idx = []
+        lim = c["step_limit"]
+        for i, (en, pick, lab) in enumerate(r.get("trace", [])):
+            if pick not in en:
+                break
+            k = en.index(pick)
+            for j in range(len(en)):
+                if j != k:
+                    ndev += 1
+                    if (ndev + offset) % stride:
+                        continue
+                    d = copy.deepcopy(c)
+                    d["schedule"] = idx + [j] + [0] * (lim - i - 1)
+                    d["systematic"] = "step %d: %s instead of %s" % (i, en[j], pick)
+                    out.append((kind, d))
+            idx.append(k)
+    return out
+
+
 def has_fail(case):
     return any(c.get("raises") for c in case.get("calls", [])) or bool(case.get("iofault_fired"))
 
@@ -119,8 +209,12 @@ def concurrent_check(res, pid, cone, kinds, n_quick, n_thorough, oracle, known, 
                          "calls": [{"raises": False}, {"raises": False}][:len(ops) - 1], "ops": ops,
                          "schedule": lockstep.gen_schedule(res.rng, 600), "step_limit": 1500}
                     directed.append(("cblock", c))
-        runs = explore(res, kinds, n, allow_fail, extra_cases=corpus + directed)
+        # quick: the first program of each kind, every 4th deviation (which quarter depends on the seed);
+        # thorough: every program, every deviation
+        syst = systematic(kinds, per_kind=1, stride=4, offset=res.seed % 4) if res.tier == "quick" else systematic(kinds)
+        runs = explore(res, kinds, n, allow_fail, extra_cases=corpus + directed + syst)
         res.cov["corpus_cases"] = len(corpus)
+        res.cov["systematic_schedules"] = len(syst)
         compared, div, harness = (0, [], [])
         if ok:
             try:
